@@ -5,7 +5,32 @@ use super::FixtureDatabase;
 use std::collections::{BTreeMap, BTreeSet, HashMap, HashSet};
 use std::path::{Path, PathBuf};
 
+/// `println!` for the CLI's output, see [`FixtureDatabase::print_line`].
+macro_rules! outln {
+    () => {
+        FixtureDatabase::print_line(format_args!(""))
+    };
+    ($($arg:tt)*) => {
+        FixtureDatabase::print_line(format_args!($($arg)*))
+    };
+}
+
 impl FixtureDatabase {
+    /// Write one line of CLI output. Unlike `println!` this does not panic when stdout cannot
+    /// be written: a pipe whose reader has gone (`fixtures list | head -1`) ends the command
+    /// quietly with the status of a process stopped by SIGPIPE, any other error (a full
+    /// device) is reported on stderr.
+    pub(crate) fn print_line(args: std::fmt::Arguments) {
+        use std::io::Write;
+        if let Err(e) = writeln!(std::io::stdout(), "{}", args) {
+            if e.kind() == std::io::ErrorKind::BrokenPipe {
+                std::process::exit(141);
+            }
+            let _ = writeln!(std::io::stderr(), "Error: cannot write to stdout: {}", e);
+            std::process::exit(2);
+        }
+    }
+
     /// Compute usage counts for all fixture definitions efficiently.
     fn compute_definition_usage_counts(&self) -> HashMap<(PathBuf, String), usize> {
         let mut counts: HashMap<(PathBuf, String), usize> = HashMap::new();
@@ -221,11 +246,11 @@ impl FixtureDatabase {
             children.sort();
         }
 
-        println!("Fixtures tree for: {}", root_path.display());
-        println!();
+        outln!("Fixtures tree for: {}", root_path.display());
+        outln!();
 
         if file_fixtures.is_empty() {
-            println!("No fixtures found in this directory.");
+            outln!("No fixtures found in this directory.");
             return;
         }
 
@@ -310,7 +335,7 @@ impl FixtureDatabase {
                 }
 
                 let file_display = name.to_string().cyan().bold();
-                println!(
+                outln!(
                     "{}{}{} ({} fixtures)",
                     prefix,
                     connector,
@@ -368,13 +393,13 @@ impl FixtureDatabase {
                         format!("{}", format!("used {} times", usage_count).yellow())
                     };
 
-                    println!(
+                    outln!(
                         "{}{}{} ({})",
                         new_prefix, fixture_connector, fixture_display, usage_info
                     );
                 }
             } else {
-                println!("{}{}{}", prefix, connector, name);
+                outln!("{}{}{}", prefix, connector, name);
             }
         } else if let Some(children) = tree.get(path) {
             let has_visible_children = children.iter().any(|child| {
@@ -399,7 +424,7 @@ impl FixtureDatabase {
                 format!("{}/", name)
             };
             let dir_display = dir_label.blue().bold();
-            println!("{}{}{}", prefix, connector, dir_display);
+            outln!("{}{}{}", prefix, connector, dir_display);
 
             let new_prefix = if is_root_level {
                 "".to_string()
